@@ -815,6 +815,7 @@ def _F(s):
 TRIMS = {
     # closed polygons in the parameter rectangle (first point repeated at the end by _trim_object)
     'square': [('3/10', '3/10'), ('7/10', '3/10'), ('7/10', '7/10'), ('3/10', '7/10')],
+    'square_cw': [('3/10', '3/10'), ('3/10', '7/10'), ('7/10', '7/10'), ('7/10', '3/10')],      # clockwise
     'triangle': [('1/5', '1/4'), ('4/5', '7/20'), ('9/20', '17/20')],
     'triangle_cw': [('1/5', '1/4'), ('9/20', '17/20'), ('4/5', '7/20')],
     'ell': [('8/37', '9/41'), ('30/37', '9/41'), ('30/37', '20/41'), ('19/37', '20/41'), ('19/37', '33/41'), ('8/37', '33/41')],
@@ -880,7 +881,8 @@ def _trim_instances(tier):
     """places = number of placements (the first entries of SHIFTS) run by the instance"""
     out = [dict(trim='square', n=[7, 7], sp=1, sense=0, places=4), dict(trim='square', n=[8, 6], sp=1, sense=0, places=4),
            dict(trim='square', n=[11, 11], sp=1, sense=0, places=4),        # placement 0 / 3: trim edges on grid lines
-           dict(trim='triangle', n=[6, 8], sp=1, sense=0, places=4), dict(trim='triangle_cw', n=[8, 8], sp=1, sense=0, places=4),
+           dict(trim='triangle', n=[6, 8], sp=1, sense=0, places=4), dict(trim='triangle_cw', n=[16, 16], sp=1, sense=0, places=2),
+           dict(trim='square_cw', n=[11, 11], sp=1, sense=0, places=3),       # clockwise trims: the enclosed region is trimmed too
            dict(trim='ell', n=[9, 9], sp=1, sense=0, places=4), dict(trim='ell', n=[13, 9], sp=2, sense=0, places=4),
            dict(trim='sliver', n=[8, 8], sp=1, sense=0, places=4),
            dict(trim='spline', n=[7, 7], sp=1, sense=0, places=2), dict(trim='spline', n=[10, 8], sp=1, sense=None, places=2),
